@@ -146,17 +146,17 @@ theorem loop_refines (tbl : PropTable) (oldOf : UInt8 → List PropOcc → Bytes
 /-- **`getAny`** -/
 theorem getAny_refines (b : IBuf) (h : Inv b) (tbl : PropTable) (oldOf : UInt8 → List PropOcc → Bytes) :
     abs (b.getAny tbl oldOf).1 = ((abs b).getAny tbl oldOf).1 ∧ (b.getAny tbl oldOf).2 = ((abs b).getAny tbl oldOf).2
-    ∧ Inv (b.getAny tbl oldOf).1 := by
+    ∧ Inv (b.getAny tbl oldOf).1 ∧ (b.getAny tbl oldOf).1.data.length = b.data.length := by
   unfold IBuf.getAny Buf.getAny
   rw [atEnd_eq b h]
   by_cases hn : (abs b).rest = []
-  · simp only [hn, decide_true, if_true]; exact ⟨trivial, trivial, h⟩
+  · simp only [hn, decide_true, if_true]; exact ⟨trivial, trivial, h, trivial⟩
   · simp only [hn, decide_false, if_false, Bool.false_eq_true]
     rcases hr : b.get decVb 0 with ⟨b1, plen⟩
     obtain ⟨e1, i1, d1, m1⟩ := get_pair b h decVb 0 b1 plen hr
     simp only [e1]
     have := loop_refines tbl oldOf b1.data.length b1.i plen (b1.data.length - b1.i + 1) b1 [] i1 rfl (Nat.le_refl _)
     rw [rest_length]
-    exact ⟨this.1, this.2.1, this.2.2.1⟩
+    exact ⟨this.1, this.2.1, this.2.2.1, by rw [this.2.2.2, d1]⟩
 
 end Mq.Tie.Buffer
